@@ -80,7 +80,7 @@ def ensure_facts(profile="dev", repo=None, quiet=False):
             return out
         # drop stale fact dirs (keep disk small): only the 3 most recently used trees are kept
         olds = sorted((e for e in os.listdir(WORK) if e.startswith("facts-")), key=lambda e: os.path.getmtime(os.path.join(WORK, e)), reverse=True)
-        for e in olds[3:]:
+        for e in olds[int(os.environ.get("FALCON_FACTS_KEEP", "3")):]:
             shutil.rmtree(os.path.join(WORK, e), ignore_errors=True)
         os.makedirs(d, exist_ok=True)
         tgt = os.path.join(d, "target")
